@@ -75,6 +75,16 @@ pub fn check_program(rep: &mut Report, prog: &[(usize, f64)], tag: &str) {
                     return;
                 }
             };
+            // the error value must also *compare* as what it is: a client writes `== Err(DataItemInvalid)` or
+            // `assert_ne!` as readily as `matches!`
+            if let Err(e) = &r {
+                let as_eq = [*e == TaError::DataItemIncomplete, *e == TaError::DataItemInvalid, *e == TaError::InvalidParameter];
+                let as_match = [matches!(e, TaError::DataItemIncomplete), matches!(e, TaError::DataItemInvalid), matches!(e, TaError::InvalidParameter)];
+                if as_eq != as_match {
+                    fail(rep, "error_equality", format!("builder program {:?} returned {:?}, which compares equal to [Incomplete, Invalid, InvalidParameter] as {:?}", prog, e, as_eq));
+                    return;
+                }
+            }
             match want {
                 Expect::Ok => rep.count("expect.ok"),
                 Expect::Invalid => rep.count("expect.invalid"),
